@@ -71,16 +71,25 @@ def run(chk):
     transducer_suite(chk, 500 if chk.tier == 'quick' else 10000)
     N = 300 if chk.tier == 'quick' else 6000
     scs = [gen.gen_success_scenario(rng) for _ in range(N)]
+    for sc in scs:
+        if rng.random() < .35:
+            sc['rules'] = gen.schedule_rules(rng, sc['pool']['n_jobs'])       # "for every schedule": adversarial ones on purpose
     obs = run_scenarios(chk, 'random valid configurations under DetSim (deadlock/livelock detector on the real code)', scs, {'C03'},
                         nontrivial=lambda sc, o: o.get('steps', 0) > 200,
-                        dist=lambda sc, o: {'start': sc['pool']['start_method'], 'ops': len(sc['ops']), 'lifespan': sc['ops'][0].get('worker_lifespan') is not None,
+                        dist=lambda sc, o: {'start': sc['pool']['start_method'], 'ops': len(sc['ops']), 'adversarial_schedule': bool(sc.get('rules')), 'lifespan': sc['ops'][0].get('worker_lifespan') is not None,
                                             'max_active_lt_chunk': bool(sc['ops'][0].get('max_tasks_active') and sc['ops'][0].get('chunk_size') and sc['ops'][0]['max_tasks_active'] < sc['ops'][0]['chunk_size'])})
     proto_correspondence(chk, 'protocol traces vs Mpire.Proto.step', scs, obs)
     cs = corner_scenarios(rng, 240 if chk.tier == 'quick' else 4000)
+    for sc in cs:
+        if rng.random() < .3:
+            sc['rules'] = gen.schedule_rules(rng, sc['pool']['n_jobs'])
     run_scenarios(chk, 'corner configurations the test-suite excludes', cs, {'C03'},
                   nontrivial=lambda sc, o: True, dist=lambda sc, o: {'corner': ['max_active<chunk', 'threading+lifespan1', 'keep_alive+bar+join', 'empty input', 'setter between calls',
                                                                                 'apply+join', 'numpy+insights', 'lifespan+hooks+bar+join'][sc['corner']]})
     fs = [gen.gen_fail_scenario(rng) for _ in range(150 if chk.tier == 'quick' else 3000)]
+    for sc in fs:
+        if rng.random() < .3:
+            sc['rules'] = gen.schedule_rules(rng, sc['pool']['n_jobs'])
     run_scenarios(chk, 'failing calls: the failure path terminates', fs, {'C03'}, nontrivial=lambda sc, o: True,
                   dist=lambda sc, o: {'outcome': (o.get('ops') or [{}])[0].get('outcome')})
     chk.assumptions += ['pipe capacity and feeder threads of multiprocessing.Queue are not modelled (DetSim queues are unbounded); OS scheduling fairness is assumed',
